@@ -107,11 +107,29 @@ func specPlain6(p *packets.FrameParser) bool {
 //@ ensures[C01.fresh]       ret0 != nil ==> fresh(ret0)
 //@ modifies u.mu, ghost clock
 
+//@ func newUDPDriver
+//@ safety C10
+//@ ensures[drv.new]  ret0 != nil && fresh(ret0) && ret0.sink == sink && ret0.source == source && ret0.config == config
+//@ modifies nothing
+
+//@ func (*udpDriver).Close
+//@ safety C10
+//@ requires[C10.drv.close.open] u != nil && u.source != nil && u.sink != nil && ref(u.source) != ref(u.sink) && selb(isOpen, ref(u.source)) && selb(isOpen, ref(u.sink))
+//@ ensures[C10.drv.close]   !selb(isOpen, ref(u.source)) && !selb(isOpen, ref(u.sink))
+//@ ensures[C10.drv.frame]   forallint(h, h != ref(u.source) && h != ref(u.sink) ==> selb(isOpen, h) == old(selb(isOpen, h)) && sel(closeN, h) == old(sel(closeN, h)))
+//@ modifies ghost isOpen, ghost closeN
+
+// Entry point (C10): the UDP socket that reserves the source port, the capture source and the raw sink are all closed
+// again on every path; handles that were open before the call are untouched; an error comes without a result.
 //@ func (*UDPv4).Traceroute
-//@ trusted pending: entry point not yet verified against this contract (C10 work item)
-//@ ensures[C10.entry.atom]  ret1 != nil ==> ret0 == nil
-//@ ensures[C03.entry.hops]  ret1 == nil ==> ret0 != nil && forall(i, 0, len(ret0.Hops), ret0.Hops[i] != nil)
-//@ modifies *
+//@ safety C10
+//@ requires[pre.nonnil]       u != nil && sendN >= 0
+//@ ensures[C10.entry.atom]    ret1 != nil ==> ret0 == nil
+//@ ensures[C03.entry.hops]    ret1 == nil ==> ret0 != nil && forall(i, 0, len(ret0.Hops), ret0.Hops[i] != nil)
+//@ ensures[C10.entry.closed]  forallint(h, !old(selb(isOpen, h)) ==> !selb(isOpen, h))
+//@ ensures[C10.entry.others]  forallint(h, old(selb(isOpen, h)) ==> selb(isOpen, h) && sel(closeN, h) == old(sel(closeN, h)))
+//@ before TracerouteParallel assert[C10.udp.open] selb(isOpen, ref(driver.source)) && selb(isOpen, ref(driver.sink))
+//@ modifies *, ghost isOpen, ghost closeN, ghost clock, ghost sendN, ghost sendLog, ghost sendClock
 
 // specProbeID: the per-probe identifier of the probe with TTL ttl: the IPv4 IP-ID 41821+ttl, or for IPv6 the UDP length
 // 8+5+ttl (the payload is made ttl bytes longer than the 5-byte magic).
